@@ -351,8 +351,9 @@ class Engine:
         s = z3.Solver()
         s.set("timeout", self.feas_timeout)
         for a in self.global_axioms:
-            s.add(a)
-        # quantified assumptions are left out: a weaker context can only keep more paths (sound)
+            if not self._has_quant(a):
+                s.add(a)
+        # quantified assumptions (and axioms) are left out: a weaker context can only keep more paths (sound)
         s.add(*[h for h in st.pc if not self._has_quant(h)])
         s.add(cond)
         r = s.check()
